@@ -49,7 +49,7 @@ register('C16',
 register('C19',
          'Coq theorems over every version table satisfying the primary key: a row deleted by vacuum is identical (every non-key '
          'column) to the nearest earlier surviving row of the same entity and everything in between was deleted too; the first '
-         'version of every entity is kept; a version that differs from its immediate predecessor is kept (A,B,A); every as-of lookup (newest version at or below any transaction id) is answered by the vacuumed table with an equal row (C19_as_of_preserved). The model '
+         'version of every entity is kept; a version that differs from its immediate predecessor is kept (A,B,A); every as-of lookup (newest version at or below any transaction id) is answered by the vacuumed table with an equal row (C19_as_of_preserved); a second vacuum deletes nothing (C19_second_vacuum_deletes_nothing). The model '
          '(per-entity pass with a last-surviving row) is compared with utils.vacuum (session.deleted and the table after '
          'commit) on random tables every run, including a joined-table hierarchy vacuumed through its base class (a model row spans both version tables).',
          COMMON_NOTE + 'naturally_equivalent (SQLAlchemy-Utils) is modelled as equality of all non-primary-key columns. The single '
